@@ -78,3 +78,7 @@ impl SelectState {
         Ok(())
     }
 }
+
+#[cfg(kani)]
+#[path = "/verif/harness/outstation_control_select.rs"]
+mod verif_harness;
